@@ -392,7 +392,7 @@ func TestVerifC15Snapctl(t *testing.T) {
 		Gen: c15CtlGen,
 		Run: c15CtlRunCase,
 		Floors: map[string]float64{
-			"via-snapctl": 0.5, "via-hook-error": 0.3, "rehold": 0.2, "past-bound": 0.2,
+			"via-snapctl": 0.5, "via-hook-error": 0.3, "rehold": 0.15, "past-bound": 0.2,
 			"expired-48h": 0.05, "proceed-unholds": 0.1,
 		},
 		NonTrivialFloor: 0.4,
